@@ -326,7 +326,9 @@ func (s *storage) bootstrap(config Config) (err error) {
 	verifPointS(s, "bootstrap.appended")
 	s.commitLog(1)
 	verifPointS(s, "bootstrap.flushed")
-	s.setTerm(1)
+	if s.term < 1 {
+		s.setTerm(1)
+	}
 	verifPointS(s, "bootstrap.termset")
 	s.lastLogIndex, s.lastLogTerm = config.Index, config.Term
 	return nil
